@@ -60,13 +60,17 @@ inline BuildLogModel ParseBuildLog(const std::string& data, bool present = true)
     // start \t end \t mtime \t output \t hash
     std::vector<std::string> f;
     size_t p = 0;
-    for (int k = 0; k < 4; ++k) {
+    for (int k = 0; k < 3; ++k) {
       size_t t = line.find('\t', p);
       if (t == std::string::npos) break;
       f.push_back(line.substr(p, t - p));
       p = t + 1;
     }
-    if (f.size() != 4) { m.bad_lines.push_back(line); continue; }
+    // the output path is written unescaped and may contain TABs itself: the hash is what follows the last one
+    size_t lt = line.rfind('\t');
+    if (f.size() != 3 || lt == std::string::npos || lt < p) { m.bad_lines.push_back(line); continue; }
+    f.push_back(line.substr(p, lt - p));
+    p = lt + 1;
     f.push_back(line.substr(p));
     BuildEntry e;
     e.start = atoll(f[0].c_str());
